@@ -634,12 +634,24 @@ def task_list(quick):
     return t
 
 
+VARIANTS = (["ossl-asan", "botan-plain"], ["ossl-plain", "ossl-asan", "botan-plain"])
+
+
 def main(tier):
     rep = Report("C10", tier, "exploration")
     quick = tier == "quick"
     variant = "ossl-asan" if quick else "ossl-plain"
-    ex = Explorer(C10(), variant=variant)
     cnt, samples = {}, []
+    run_lane(rep, variant, quick, cnt, samples, "")
+    # the same grid on the library built with the Botan backend (same references; a second, independently written implementation of every mechanism)
+    cnt_b = {}
+    run_lane(rep, "botan-plain", quick, cnt_b, [], "botan|")
+    finish(rep, quick, variant, cnt, samples, cnt_b)
+    return rep.finish()
+
+
+def run_lane(rep, variant, quick, cnt, samples, tag):
+    ex = Explorer(C10(), variant=variant)
     try:
         tasks = task_list(quick)
         found = {}
@@ -662,22 +674,27 @@ def main(tier):
             for sig in by_task[t]:
                 if sig in seen:
                     v = dict(found[sig]); v.update(variant=variant, store="file", replay_module="c10_crypto")
+                    if tag:
+                        v["signature"] = v["signature"].replace("C10|", "C10|" + tag, 1)
                     rep.add_violation(v)
                 else:
                     rep.harness_errors.append("violation %s did not reproduce" % sig)
     finally:
         ex.close()
+
+
+def finish(rep, quick, variant, cnt, samples, cnt_b):
     nontrivial = cnt.get("outputs_equal_reference", 0) + cnt.get("signatures_verified_by_reference", 0) + cnt.get("reference_signatures_verified_by_token", 0) + cnt.get("ciphertexts_decrypted_by_reference", 0)
     if nontrivial < 100 or not cnt.get("tamper_cases") or not cnt.get("multipart_runs"):
         rep.harness_errors.append("vacuous: %r" % cnt)
     rep.coverage = {"evaluations": cnt.get("cells", 0) + cnt.get("multipart_runs", 0) + cnt.get("tamper_cases", 0), "distinct_nontrivial": nontrivial,
-                    "samples": samples[:8], "exhaustive": True, "variant": variant, "outcome_counters": cnt, "tasks": len(task_list(quick)),
+                    "samples": samples[:8], "exhaustive": True, "variant": variant, "outcome_counters": cnt, "tasks": len(task_list(quick)), "botan_lane": cnt_b,
                     "rule": "evaluations = single-part cells + multi-part runs (every composition into <= %d parts, both directions) + tamper cases (every single bit); "
                             "non-trivial = cells in which token output and reference output were both produced and compared (equality, or cross verification / "
                             "cross decryption for randomised schemes)" % (2 if quick else 3)}
     rep.assumptions = ["reference: Botan 2.19 (refsh) for ciphers, CMAC, RSA/DSA/ECDSA/Ed25519/DH/ECDH/X25519, hashlib/hmac for digests and HMAC; CTR with arbitrary counter width is "
-                       "built on Botan single-block encryption", "key and message VALUES are fixed patterns; single DES and Ed448/X448 are not covered (no usable reference / legacy provider)"]
-    return rep.finish()
+                       "built on Botan single-block encryption", "key and message VALUES are fixed patterns; single DES and Ed448/X448 are not covered (no usable reference / legacy provider)",
+                       "second lane: the same grid on the Botan-backed build (a mechanism that build refuses at Init is counted, not judged)"]
 
 
 def replay(rec):
